@@ -73,6 +73,15 @@ def _worker(job):
             def hook(h, ctx, model, clause, meta, _n=name):
                 return make_witness(_n, ctx, model, clause, "S")
 
+        if hook is None and c["domain"] == "U":
+
+            def hook(h, ctx, model, clause, meta, _n=name):
+                u = getattr(h, "u", None)
+                p = u.model_witness(model) if u is not None else None
+                if p is None:
+                    return None
+                return {"kind": "U", "contract": _n, "clause": clause, "monitor": "m_model", "fn": "evaluate", "input": p}
+
         r = run_contract(name, c["fn"], src_root=src, model_hook=hook, shard=shard, **limits)
         return r.to_json()
     except Exception as e:  # pragma: no cover
